@@ -106,6 +106,7 @@ def check(ctx):
     _det_axes(rep, model)
     _surface_normal(rep, model)
     _from_to(rep, model)
+    _alignment_test(rep, model)
     _composition(rep, model)
     _forwarding(rep, model)
     _coverage(rep, model)
@@ -1634,6 +1635,103 @@ def _from_to(rep, model):
         except PyRaise as e:
             rep.violation('R9', tag, 'raises %s' % e.name, UTIL, fn.lineno)
     rep.floor('R9', 'rotation_matrix_from_to evaluations', n, 12)
+
+
+def _alignment_test(rep, model):
+    """R9b: `transform_system` skips the rotation when the given principal
+    vector is (numerically) the default one.  The tolerance test behind
+    that shortcut must be sensitive in first order to a tilt of the vector:
+    with principal_vec = default + eps * perp the difference of the compared
+    operands has a non-vanishing derivative at eps = 0 (a quantity that is
+    stationary there - the cosine of the angle - accepts tilts of the order
+    of the square root of the tolerance)."""
+    import numpy as _np
+    from ..namodel import NA, NAHooks, NAInterp, objarr, na_of
+    from .. import posalg as PA, mdiff
+    from ..posalg import Signs
+    fn = model.ctx.func(UTIL, 'transform_system')
+    if fn is None:
+        raise AnalysisError('anchor vanished: transform_system')
+    signs = Signs({'eps'})
+    seen = []
+
+    class Stop(Exception):
+        pass
+
+    class H(NAHooks):
+        def np_func(self, I, name):
+            if name in ('allclose', 'isclose'):
+                def close(a, b, *r, **k):
+                    seen.append((a, b))
+                    raise Stop()
+                return close
+            return NAHooks.np_func(self, I, name)
+
+        def linalg_norm(self, I, v, ord=None, axis=None, keepdims=False,
+                        **k):
+            tot = Rat.const(0)
+            for x in na_of(v).a.ravel():
+                tot = tot + to_rat(x) * to_rat(x)
+            return PA.root(tot, 2, signs)
+
+        def on_decide(self, interp, cond, node):
+            if cond.rat is not None:
+                try:
+                    v = PA.num_eval(cond.rat, {'eps': 1e-3})
+                except (KeyError, Undecided):
+                    return NotImplemented
+                k = cond.key.split(':')[0]
+                z = abs(v) < 1e-12
+                return {'eq0': z, 'Lt': v < 0 and not z, 'LtE': v < 0 or z,
+                        'Gt': v > 0 and not z, 'GtE': v > 0 or z}.get(
+                            k, NotImplemented)
+            return NotImplemented
+    eps = Rat.var('eps')
+    n = 0
+    for dflt, perp in (((0, 1, 0), (1, 0, 0)), ((0, 0, 1), (0, 1, 0)),
+                       ((0, 1), (1, 0))):
+        n += 1
+        tag = 'transform_system[default %r tilted towards %r]' % (dflt, perp)
+        del seen[:]
+        try:
+            I = NAInterp(model, {}, H())
+            pv = NA(objarr([Rat.const(d) + eps * Rat.const(p)
+                            for d, p in zip(dflt, perp)]), 'float64')
+            pd = NA(objarr([Rat.const(d) for d in dflt]), 'float64')
+            try:
+                I.call_func(Func(fn, I.env_of(UTIL), None), [pv, pd, []], {})
+            except Stop:
+                pass
+            if not seen:
+                raise Undecided('no tolerance test reached')
+            a, b = seen[0]
+            av = [to_rat(x) for x in (a.a.ravel() if isinstance(a, NA)
+                                      else [a])]
+            bv = [to_rat(x) for x in (b.a.ravel() if isinstance(b, NA)
+                                      else [b])]
+            if len(bv) == 1 and len(av) > 1:
+                bv = bv * len(av)
+            slopes = []
+            for x, y in zip(av, bv):
+                d = mdiff.diff(PA.ired(x - y), 'eps')
+                slopes.append(PA.num_eval(d, {'eps': 0.0}))
+            if all(abs(v) < 1e-12 for v in slopes):
+                rep.violation(
+                    'R9b', tag, 'the shortcut "vectors are aligned" is '
+                    'taken when `%s` is close to `%s`; that difference is '
+                    'stationary at alignment (derivative 0 with respect to '
+                    'the tilt), so tilts up to the square root of the '
+                    'tolerance pass and the dependent vectors are not '
+                    'rotated with the principal one' % (
+                        str(av[0])[:60], str(bv[0])[:40]), UTIL, fn.lineno)
+            else:
+                rep.holds('R9b', tag, 'tolerance test of first order in the '
+                          'tilt (slopes %s)' % ['%.3g' % v for v in slopes])
+        except (Undecided, Fork) as e:
+            rep.undecided('R9b', tag, str(e), UTIL, fn.lineno)
+        except PyRaise as e:
+            rep.violation('R9b', tag, 'raises %s' % e.name, UTIL, fn.lineno)
+    rep.floor('R9b', 'alignment tests', n, 3)
 
 
 def _det_axes(rep, model):
